@@ -14,3 +14,72 @@ proof fn lemma_j_idx(s: Seq<(Seq<char>, J)>, k: Seq<char>)
 {
     if s.len() > 0 && s[0].0 != k { lemma_j_idx(s.drop_first(), k); }
 }
+spec fn keys_unique(m: Seq<(Seq<char>, J)>) -> bool { forall|i: int, k: int| 0 <= i < k < m.len() ==> m[i].0 != m[k].0 }
+proof fn lemma_j_idx0(s: Seq<(Seq<char>, J)>, k: Seq<char>)
+    requires s.len() > 0, s[0].0 == k
+    ensures j_idx(s, k) == 0
+{}
+proof fn lemma_j_has_iff(s: Seq<(Seq<char>, J)>, k: Seq<char>)
+    ensures j_has(s, k) <==> exists|q: int| 0 <= q < s.len() && #[trigger] s[q].0 == k
+    decreases s.len()
+{
+    if s.len() > 0 {
+        lemma_j_has_iff(s.drop_first(), k);
+        if s[0].0 != k {
+            if j_has(s.drop_first(), k) {
+                let q = choose|q: int| 0 <= q < s.drop_first().len() && #[trigger] s.drop_first()[q].0 == k;
+                assert(s[q + 1].0 == k);
+            }
+            if exists|q: int| 0 <= q < s.len() && #[trigger] s[q].0 == k {
+                let q = choose|q: int| 0 <= q < s.len() && #[trigger] s[q].0 == k;
+                assert(s.drop_first()[q - 1].0 == k);
+            }
+        }
+    }
+}
+proof fn lemma_j_insert_unique(m: Seq<(Seq<char>, J)>, k: Seq<char>, v: J)
+    requires keys_unique(m)
+    ensures keys_unique(j_insert(m, k, v)), j_has(j_insert(m, k, v), k)
+{
+    lemma_j_idx(m, k);
+    lemma_j_has_iff(m, k);
+    let r = j_insert(m, k, v);
+    if j_has(m, k) {
+        assert forall|a: int, b: int| 0 <= a < b < r.len() implies r[a].0 != r[b].0 by { assert(m[a].0 != m[b].0); }
+        lemma_j_has_iff(r, k);
+        assert(r[j_idx(m, k)].0 == k);
+    } else {
+        assert forall|a: int, b: int| 0 <= a < b < r.len() implies r[a].0 != r[b].0 by {
+            if b == m.len() { assert(m[a].0 != k); } else { assert(m[a].0 != m[b].0); }
+        }
+        lemma_j_has_iff(r, k);
+        assert(r[m.len() as int].0 == k);
+    }
+}
+proof fn lemma_push_unique(m: Seq<(Seq<char>, J)>, k: Seq<char>, v: J)
+    requires keys_unique(m), !j_has(m, k)
+    ensures keys_unique(m.push((k, v)))
+{
+    lemma_j_has_iff(m, k);
+    let r = m.push((k, v));
+    assert forall|a: int, b: int| 0 <= a < b < r.len() implies r[a].0 != r[b].0 by {
+        if b == m.len() { assert(m[a].0 != k); } else { assert(m[a].0 != m[b].0); }
+    }
+}
+proof fn lemma_remove_key_gone(m: Seq<(Seq<char>, J)>, k: Seq<char>)
+    requires keys_unique(m)
+    ensures !j_has(if j_has(m, k) { m.remove(j_idx(m, k)) } else { m }, k)
+{
+    if j_has(m, k) {
+        lemma_j_idx(m, k);
+        let i = j_idx(m, k);
+        let r = m.remove(i);
+        lemma_j_has_iff(r, k);
+        if j_has(r, k) {
+            let q = choose|q: int| 0 <= q < r.len() && #[trigger] r[q].0 == k;
+            let q0 = if q < i { q } else { q + 1 };
+            assert(m[q0].0 == k);
+            if q0 < i { assert(m[q0].0 != m[i].0); } else { assert(m[i].0 != m[q0].0); }
+        }
+    }
+}
